@@ -502,6 +502,15 @@ func e3(strat string, healthOutcomeFail bool, bound int) {
 func main() {
 	sharedFactory()
 	res = report.Init("C03", "model_checking")
+	if report.FreeRun > 0 {
+		explore.FreeRuns = report.FreeRun
+		for _, strat := range []string{"priority", "round-robin"} {
+			e3(strat, false, 2)
+			e3(strat, true, 2)
+		}
+		res.Add("free_runs", int64(explore.FreeRunsDone))
+		res.Finish()
+	}
 	maxN := 4
 	e1(maxN)
 	d2, d3 := 4, 3
